@@ -59,6 +59,33 @@ Proof.
   apply lookup_last_lt. intros c H; discriminate.
 Qed.
 
+Lemma lookup_l2_last_lt l i : forall acc x,
+  (forall y, acc = Some y -> fst y < W /\ snd y < W) -> lookup_l2_last l i acc = Some x -> fst x < W /\ snd x < W.
+Proof.
+  induction l as [|[j [b p]] r IH]; intros acc x Ha H; cbn [lookup_l2_last] in H.
+  - apply Ha; exact H.
+  - eapply IH; [|exact H]. intros y Hy. destruct (N.eqb i j).
+    + inversion Hy; subst; cbn. split; apply N.mod_lt; unfold W; lia.
+    + apply Ha; exact Hy.
+Qed.
+
+Lemma lookup_l2_lt sn i x : lookup_l2 sn i = Some x -> fst x < W /\ snd x < W.
+Proof.
+  unfold lookup_l2. destruct sn as [l|]; [|discriminate].
+  apply lookup_l2_last_lt. intros y H; discriminate.
+Qed.
+
+Lemma reading_lt g tick e sn st : reading g tick e sn = Some st -> c4_lt_W st.
+Proof.
+  unfold reading. destruct (g && tick).
+  - unfold l2_reading.
+    destruct (lookup_l2 (l2 sn) (ifx e)) as [u|] eqn:U; destruct (lookup_l2 (l2 sn) (hfx e)) as [d|] eqn:D;
+      intros H; inversion H; subst; unfold c4_lt_W; cbn [rxb txb rxp txp fst snd];
+      try (pose proof (lookup_l2_lt _ _ _ U) as [? ?]); try (pose proof (lookup_l2_lt _ _ _ D) as [? ?]);
+      pose proof W_pos; repeat split; auto.
+  - apply lookup_stats_lt.
+Qed.
+
 (* ---------- applyVPPCounters (repaired): never below the last reported values ---------- *)
 Lemma rebase_fields v e st :
   ifx (rebase v e st) = ifx e /\ last (rebase v e st) = last e /\ pending (rebase v e st) = pending e.
@@ -84,19 +111,19 @@ Proof.
     rewrite N.ltb_ge in H1, H2, H3, H4. unfold c4_le. auto.
 Qed.
 
-Lemma report_ge e sn :
-  report_wraps repaired e sn = false -> c4_le (last e) (snd (report repaired e sn)).
+Lemma report_ge g tick e sn :
+  report_wraps repaired g tick e sn = false -> c4_le (last e) (snd (report repaired g tick e sn)).
 Proof.
-  unfold report, report_wraps. destruct (lookup_stats sn (ifx e)) as [st|] eqn:L.
-  - intros Hw. apply apply_ge; [eapply lookup_stats_lt; exact L | exact Hw].
+  unfold report, report_wraps. destruct (reading g tick e sn) as [st|] eqn:L.
+  - intros Hw. apply apply_ge; [eapply reading_lt; exact L | exact Hw].
   - intros _. cbn. unfold c4_le. lia.
 Qed.
 
-Lemma report_fields v e sn :
-  ifx (fst (report v e sn)) = ifx e /\ last (fst (report v e sn)) = last e /\
-  pending (fst (report v e sn)) = pending e.
+Lemma report_fields v g tick e sn :
+  ifx (fst (report v g tick e sn)) = ifx e /\ last (fst (report v g tick e sn)) = last e /\
+  pending (fst (report v g tick e sn)) = pending e.
 Proof.
-  unfold report. destruct (lookup_stats sn (ifx e)); cbn [fst apply]; [apply rebase_fields|auto].
+  unfold report. destruct (reading g tick e sn); cbn [fst apply]; [apply rebase_fields|auto].
 Qed.
 
 (* ---------- coupling between the component state and the monitor's ledger ---------- *)
@@ -114,16 +141,16 @@ Definition coupled (s : sst) (m : mst) : Prop :=
 Lemma coupled_init : coupled sst0 mst0.
 Proof. unfold coupled; cbn; auto. Qed.
 
-Lemma step_conforms s m ev :
-  coupled s m -> lstep_wraps repaired s ev = false ->
-  exists m', mon_step m ev (snd (lstep repaired s ev)) = Some m' /\ coupled (fst (lstep repaired s ev)) m'.
+Lemma step_conforms g s m ev :
+  coupled s m -> lstep_wraps repaired g s ev = false ->
+  exists m', mon_step m ev (snd (lstep repaired g s ev)) = Some m' /\ coupled (fst (lstep repaired g s ev)) m'.
 Proof.
   intros C Hw. unfold coupled in C.
   destruct s as [ib ca d]. cbn [cache db inb] in C.
   destruct ca as [e|].
   - destruct C as (Ho & Ha & Hp & Hi & Hd). subst ib.
     destruct m as [mo mp mq ma]. cbn [m_open m_ack m_pend m_pers] in *. subst mo ma mq.
-    destruct ev as [i|i|sn|sn ok| |past]; cbn [lstep lstep_wraps cache inb db] in *.
+    destruct ev as [i h|i h|sn|sn ok| |past]; cbn [lstep lstep_wraps cache inb db] in *.
     + (* Active *)
       destruct (pending e) eqn:P; cbn [negb fix_active repaired fst snd mon_step m_open].
       * eexists; split; [reflexivity|]. unfold coupled, confirm; cbn. destruct d; cbn in *; repeat split; intuition auto.
@@ -134,16 +161,16 @@ Proof.
       unfold coupled, confirm; cbn. destruct d; cbn in *; repeat split; intuition auto.
     + (* Released *)
       cbn [fst snd mon_step m_open m_ack].
-      pose proof (report_ge e sn Hw) as G. apply c4_leb_spec in G. rewrite G.
+      pose proof (report_ge g false e sn Hw) as G. apply c4_leb_spec in G. rewrite G.
       eexists; split; [reflexivity|]. unfold coupled; cbn; repeat split; auto.
     + (* Tick *)
       destruct (pending e) eqn:P; cbn [negb] in *.
       * cbn [fst snd mon_step m_open m_pend andb negb]. eexists; split; [reflexivity|].
         unfold coupled; cbn [cache db inb]. rewrite P. cbn. destruct d; cbn in *; repeat split; intuition auto.
       * cbn [andb] in Hw.
-        pose proof (report_ge e sn Hw) as G. apply c4_leb_spec in G.
-        pose proof (report_fields repaired e sn) as (F1 & F2 & F3).
-        destruct (report repaired e sn) as [e' c] eqn:RP. cbn [fst snd] in *.
+        pose proof (report_ge g true e sn Hw) as G. apply c4_leb_spec in G.
+        pose proof (report_fields repaired g true e sn) as (F1 & F2 & F3).
+        destruct (report repaired g true e sn) as [e' c] eqn:RP. cbn [fst snd] in *.
         destruct ok; cbn [fst snd mon_step m_open m_pend m_ack andb negb Bool.eqb]; rewrite G.
         -- eexists; split; [reflexivity|]. unfold coupled; cbn. rewrite F3, P. cbn; repeat split; auto.
         -- eexists; split; [reflexivity|]. unfold coupled; cbn [cache db inb]. rewrite F2, F3, P.
@@ -163,37 +190,37 @@ Proof.
       * eexists; split; [reflexivity|]. unfold coupled; cbn [cache db inb]. rewrite P. cbn.
         destruct d; cbn in *; repeat split; intuition auto.
   - destruct C as (Hd & Hi & Hm). subst d ib m.
-    destruct ev as [i|i|sn|sn ok| |past]; cbn [lstep lstep_wraps cache inb db fst snd mon_step m_open mst0 fix_stop repaired andb];
+    destruct ev as [i h|i h|sn|sn ok| |past]; cbn [lstep lstep_wraps cache inb db fst snd mon_step m_open mst0 fix_stop repaired andb];
       eexists; (split; [reflexivity|]); unfold coupled; cbn; repeat split; auto.
 Qed.
 
-Lemma run_conforms evs : forall s m,
-  coupled s m -> lrun_wraps repaired s evs = false ->
-  exists m', mon_run m (snd (lrun repaired s evs)) = Some m'.
+Lemma run_conforms g evs : forall s m,
+  coupled s m -> lrun_wraps repaired g s evs = false ->
+  exists m', mon_run m (snd (lrun repaired g s evs)) = Some m'.
 Proof.
   induction evs as [|ev r IH]; intros s m C Hw; cbn [lrun lrun_wraps] in *.
   - eexists; reflexivity.
   - apply orb_false_elim in Hw as [Hw1 Hw2].
-    destruct (step_conforms s m ev C Hw1) as (m1 & M1 & C1).
-    destruct (lstep repaired s ev) as [s1 o] eqn:E. cbn [fst snd] in *.
+    destruct (step_conforms g s m ev C Hw1) as (m1 & M1 & C1).
+    destruct (lstep repaired g s ev) as [s1 o] eqn:E. cbn [fst snd] in *.
     destruct (IH s1 m1 C1 Hw2) as (m2 & M2).
-    destruct (lrun repaired s1 r) as [s2 t] eqn:E2. cbn [snd mon_run] in *.
+    destruct (lrun repaired g s1 r) as [s2 t] eqn:E2. cbn [snd mon_run] in *.
     rewrite M1. eexists; exact M2.
 Qed.
 
-Lemma conforms evs :
-  lrun_wraps repaired sst0 evs = false -> accepted (snd (lrun repaired sst0 evs)) = true.
+Lemma conforms g evs :
+  lrun_wraps repaired g sst0 evs = false -> accepted (snd (lrun repaired g sst0 evs)) = true.
 Proof.
   intros Hw. unfold accepted.
-  destruct (run_conforms evs sst0 mst0 coupled_init Hw) as (m' & M). rewrite M. reflexivity.
+  destruct (run_conforms g evs sst0 mst0 coupled_init Hw) as (m' & M). rewrite M. reflexivity.
 Qed.
 
 (* ---------- what acceptance by the monitor means for the plain call stream ---------- *)
-Lemma lrun_events v evs : forall s, map fst (snd (lrun v s evs)) = evs.
+Lemma lrun_events v g evs : forall s, map fst (snd (lrun v g s evs)) = evs.
 Proof.
   induction evs as [|ev r IH]; intros s; cbn [lrun]; [reflexivity|].
-  destruct (lstep v s ev) as [s1 o]. specialize (IH s1).
-  destruct (lrun v s1 r) as [s2 t]. cbn in *. f_equal. exact IH.
+  destruct (lstep v g s ev) as [s1 o]. specialize (IH s1).
+  destruct (lrun v g s1 r) as [s2 t]. cbn in *. f_equal. exact IH.
 Qed.
 
 (* a Start is only ever sent when the ledger is closed; inside => open and persisted *)
@@ -207,7 +234,7 @@ Proof.
   cbn [map fst no_prune forallb] in NP. apply andb_true_iff in NP as [NP1 NP2].
   unfold outputs in *. cbn [flat_map snd].
   destruct m as [mo mp mq ma].
-  destruct ev as [i|i|sn|sn ok| |past]; cbn [mon_step m_open m_pers m_pend m_ack] in S.
+  destruct ev as [i h|i h|sn|sn ok| |past]; cbn [mon_step m_open m_pers m_pend m_ack] in S.
   - destruct mo.
     + destruct o; [|discriminate]. inversion S; subst. cbn [app].
       eapply IH; [exact M|exact NP2|]. intros Hi. destruct (I Hi) as [_ Hp]. cbn in *. auto.
@@ -246,7 +273,7 @@ Proof.
   cbn [mon_run] in M. destruct (mon_step m ev o) as [m1|] eqn:S; [|discriminate].
   cbn [stops_ok].
   destruct m as [mo mp mq ma].
-  destruct ev as [i|i|sn|sn ok| |past]; cbn [mon_step m_open m_pers m_pend m_ack] in S.
+  destruct ev as [i h|i h|sn|sn ok| |past]; cbn [mon_step m_open m_pers m_pend m_ack] in S.
   - destruct mo.
     + destruct o; [|discriminate]. inversion S; subst. cbn. eapply IH; [exact M|]. discriminate.
     + destruct o as [|[| |] [|]]; try discriminate. inversion S; subst. cbn.
@@ -284,7 +311,7 @@ Proof.
   cbn [map fst no_prune forallb] in NP. apply andb_true_iff in NP as [NP1 NP2].
   unfold outputs in *. cbn [flat_map snd].
   destruct m as [mo mp mq ma]. unfold mono_inv in I. cbn [m_open m_ack m_pers] in I.
-  destruct ev as [i|i|sn|sn ok| |past]; cbn [mon_step m_open m_pers m_pend m_ack] in S.
+  destruct ev as [i h|i h|sn|sn ok| |past]; cbn [mon_step m_open m_pers m_pend m_ack] in S.
   - destruct mo.
     + destruct o; [|discriminate]. inversion S; subst. cbn [app].
       eapply IH; [exact M|exact NP2|]. unfold mono_inv; cbn; auto.
@@ -323,35 +350,35 @@ Qed.
 Lemma accepted_run t : accepted t = true -> exists m', mon_run mst0 t = Some m'.
 Proof. unfold accepted. destruct (mon_run mst0 t); [eauto|discriminate]. Qed.
 
-Lemma start_once evs :
-  lrun_wraps repaired sst0 evs = false -> no_prune evs = true ->
-  bracketed false (outputs (snd (lrun repaired sst0 evs))) = true.
+Lemma start_once g evs :
+  lrun_wraps repaired g sst0 evs = false -> no_prune evs = true ->
+  bracketed false (outputs (snd (lrun repaired g sst0 evs))) = true.
 Proof.
-  intros Hw NP. destruct (accepted_run _ (conforms evs Hw)) as (m' & M).
+  intros Hw NP. destruct (accepted_run _ (conforms g evs Hw)) as (m' & M).
   eapply mon_bracketed; [exact M| rewrite lrun_events; exact NP | discriminate].
 Qed.
 
-Lemma stop_once evs :
-  lrun_wraps repaired sst0 evs = false ->
-  stops_ok false (snd (lrun repaired sst0 evs)) = true.
+Lemma stop_once g evs :
+  lrun_wraps repaired g sst0 evs = false ->
+  stops_ok false (snd (lrun repaired g sst0 evs)) = true.
 Proof.
-  intros Hw. destruct (accepted_run _ (conforms evs Hw)) as (m' & M).
+  intros Hw. destruct (accepted_run _ (conforms g evs Hw)) as (m' & M).
   eapply mon_stops; [exact M | reflexivity].
 Qed.
 
-Lemma monotone evs :
-  lrun_wraps repaired sst0 evs = false -> no_prune evs = true ->
-  nondecreasing c4z (outputs (snd (lrun repaired sst0 evs))) = true.
+Lemma monotone g evs :
+  lrun_wraps repaired g sst0 evs = false -> no_prune evs = true ->
+  nondecreasing c4z (outputs (snd (lrun repaired g sst0 evs))) = true.
 Proof.
-  intros Hw NP. destruct (accepted_run _ (conforms evs Hw)) as (m' & M).
+  intros Hw NP. destruct (accepted_run _ (conforms g evs Hw)) as (m' & M).
   eapply mon_monotone; [exact M| rewrite lrun_events; exact NP | unfold mono_inv; cbn; reflexivity].
 Qed.
 
 (* ---------- repeated notifications are silent (any reachable or unreachable state) ---------- *)
-Lemma after_announce_silent s ev i j :
-  (ev = EActive i \/ ev = ERestored i) ->
-  let s' := fst (lstep repaired s ev) in
-  snd (lstep repaired s' (EActive j)) = [] /\ snd (lstep repaired s' (ERestored j)) = [].
+Lemma after_announce_silent g s ev i h j k :
+  (ev = EActive i h \/ ev = ERestored i h) ->
+  let s' := fst (lstep repaired g s ev) in
+  snd (lstep repaired g s' (EActive j k)) = [] /\ snd (lstep repaired g s' (ERestored j k)) = [].
 Proof.
   intros [E|E]; subst ev; cbn [lstep].
   - destruct (inb s) eqn:IB.
@@ -360,18 +387,19 @@ Proof.
   - destruct (cache s); cbn; auto.
 Qed.
 
-Lemma after_release_silent s sn sn' :
-  let s' := fst (lstep repaired s (EReleased sn)) in
-  s' = sst0 /\ snd (lstep repaired s' (EReleased sn')) = [].
+Lemma after_release_silent g s sn sn' :
+  let s' := fst (lstep repaired g s (EReleased sn)) in
+  s' = sst0 /\ snd (lstep repaired g s' (EReleased sn')) = [].
 Proof. cbn [lstep]. destruct (cache s); cbn; auto. Qed.
 
-Lemma restore_never_starts v s i : snd (lstep v s (ERestored i)) = [].
+Lemma restore_never_starts v g s i h : snd (lstep v g s (ERestored i h)) = [].
 Proof. cbn [lstep]. destruct (cache s); reflexivity. Qed.
 
 (* ---------- the component is the product of the per-session machines ---------- *)
-Lemma gstep_from_nth v bk e : forall g j0 j s,
+Lemma gstep_from_nth v bk tys e : forall g j0 j s,
   nth_error g j = Some s ->
-  nth_error (gstep_from v bk j0 g e) j = Some (lstep_opt v s (project bk (j0 + j)%nat e)).
+  nth_error (gstep_from v bk tys j0 g e) j =
+  Some (lstep_opt v (is_l2gw tys (j0 + j)) s (project bk (j0 + j)%nat e)).
 Proof.
   induction g as [|s0 r IH]; intros j0 j s H.
   - destruct j; discriminate.
@@ -380,20 +408,20 @@ Proof.
     + rewrite (IH (S j0) j s H). replace (S j0 + j)%nat with (j0 + S j)%nat by lia. reflexivity.
 Qed.
 
-Lemma gstep_nth v bk g e j s :
+Lemma gstep_nth v bk tys g e j s :
   nth_error g j = Some s ->
-  nth_error (gstep v bk g e) j = Some (lstep_opt v s (project bk j e)).
-Proof. intros H. unfold gstep. rewrite (gstep_from_nth v bk e g 0 j s H). reflexivity. Qed.
+  nth_error (gstep v bk tys g e) j = Some (lstep_opt v (is_l2gw tys j) s (project bk j e)).
+Proof. intros H. unfold gstep. rewrite (gstep_from_nth v bk tys e g 0 j s H). reflexivity. Qed.
 
-Lemma gstep_length v bk e : forall g j0, length (gstep_from v bk j0 g e) = length g.
+Lemma gstep_length v bk tys e : forall g j0, length (gstep_from v bk tys j0 g e) = length g.
 Proof. induction g; intros; cbn; auto. Qed.
 
 (* component run: states after a list of component-level events, and session j's local run over the
    events addressed to it *)
-Fixpoint grun (v : variant) (bk : list N) (g : list sst) (evs : list gev) : list sst :=
+Fixpoint grun (v : variant) (bk : list N) (tys : list bool) (g : list sst) (evs : list gev) : list sst :=
   match evs with
   | [] => g
-  | e :: r => grun v bk (map fst (gstep v bk g e)) r
+  | e :: r => grun v bk tys (map fst (gstep v bk tys g e)) r
   end.
 Fixpoint local_events (bk : list N) (j : nat) (evs : list gev) : list sev :=
   match evs with
@@ -401,23 +429,23 @@ Fixpoint local_events (bk : list N) (j : nat) (evs : list gev) : list sev :=
   | e :: r => match project bk j e with Some le => le :: local_events bk j r | None => local_events bk j r end
   end.
 
-Lemma component_is_product v bk evs : forall g j s,
+Lemma component_is_product v bk tys evs : forall g j s,
   nth_error g j = Some s ->
-  nth_error (grun v bk g evs) j = Some (fst (lrun v s (local_events bk j evs))).
+  nth_error (grun v bk tys g evs) j = Some (fst (lrun v (is_l2gw tys j) s (local_events bk j evs))).
 Proof.
   induction evs as [|e r IH]; intros g j s H; cbn [grun local_events].
   - cbn. exact H.
-  - pose proof (gstep_nth v bk g e j s H) as G.
-    assert (H1 : nth_error (map fst (gstep v bk g e)) j = Some (fst (lstep_opt v s (project bk j e)))).
+  - pose proof (gstep_nth v bk tys g e j s H) as G.
+    assert (H1 : nth_error (map fst (gstep v bk tys g e)) j = Some (fst (lstep_opt v (is_l2gw tys j) s (project bk j e)))).
     { rewrite nth_error_map, G. reflexivity. }
     rewrite (IH _ j _ H1).
     destruct (project bk j e) as [le|]; cbn [lstep_opt fst].
-    + cbn [lrun]. destruct (lstep v s le) as [s1 o]. cbn [fst].
-      destruct (lrun v s1 (local_events bk j r)); reflexivity.
+    + cbn [lrun]. destruct (lstep v (is_l2gw tys j) s le) as [s1 o]. cbn [fst].
+      destruct (lrun v (is_l2gw tys j) s1 (local_events bk j r)); reflexivity.
     + reflexivity.
 Qed.
 
-(* ---------- an input-only sufficient condition for "no wrap" ----------
+(* ---------- an input-only sufficient condition for "no wrap" (sessions reading the interface table) ----------
    If, per counter, the sum of every reading that appears anywhere in the history is below 2^64, no
    cumulative ever wraps (each cumulative is bounded by the sum of the readings seen so far). *)
 Definition c4_add (a b : c4) : c4 := c4_map2 N.add a b.
@@ -425,7 +453,7 @@ Fixpoint items_sum (l : list (N * c4)) : c4 :=
   match l with [] => c4z | (_, c) :: r => c4_add (c4_norm c) (items_sum r) end.
 Definition snap_sum (sn : snap) : c4 := match sn with None => c4z | Some l => items_sum l end.
 Definition ev_sum (ev : sev) : c4 :=
-  match ev with EReleased sn => snap_sum sn | ETick sn _ => snap_sum sn | _ => c4z end.
+  match ev with EReleased sn => snap_sum (ifs sn) | ETick sn _ => snap_sum (ifs sn) | _ => c4z end.
 Fixpoint total_readings (evs : list sev) : c4 :=
   match evs with [] => c4z | ev :: r => c4_add (ev_sum ev) (total_readings r) end.
 
@@ -497,18 +525,18 @@ Proof.
   - rewrite C. c4crush.
 Qed.
 
-Lemma report_bound B T e sn :
-  sinv B e -> c4_le (snap_sum sn) T -> c4_lt_W (c4_add B T) ->
-  report_wraps repaired e sn = false /\
-  sinv (c4_add B T) (fst (report repaired e sn)) /\
-  c4_le (prior (fst (report repaired e sn))) (snd (report repaired e sn)) /\
-  c4_le (snd (report repaired e sn)) (c4_add B T).
+Lemma report_bound B T tick e sn :
+  sinv B e -> c4_le (snap_sum (ifs sn)) T -> c4_lt_W (c4_add B T) ->
+  report_wraps repaired false tick e sn = false /\
+  sinv (c4_add B T) (fst (report repaired false tick e sn)) /\
+  c4_le (prior (fst (report repaired false tick e sn))) (snd (report repaired false tick e sn)) /\
+  c4_le (snd (report repaired false tick e sn)) (c4_add B T).
 Proof.
-  intros I LT LW. unfold report, report_wraps.
-  destruct (lookup_stats sn (ifx e)) as [st|] eqn:L.
+  intros I LT LW. unfold report, report_wraps, reading. cbn [andb].
+  destruct (lookup_stats (ifs sn) (ifx e)) as [st|] eqn:L.
   - apply apply_bound; auto.
     + eapply lookup_stats_lt; exact L.
-    + pose proof (lookup_stats_le sn (ifx e) st L). c4crush.
+    + pose proof (lookup_stats_le (ifs sn) (ifx e) st L). c4crush.
   - cbn [fst snd]. destruct I as (I1 & I2 & I3). split; [reflexivity|split; [|split]].
     + unfold sinv. split; [exact I1|split; [exact I2|c4crush]].
     + exact I2.
@@ -522,7 +550,7 @@ Lemma c4_le_refl a : c4_le a a. Proof. c4crush. Qed.
 
 Lemma step_bound B s ev :
   ginv B s -> c4_lt_W (c4_add B (ev_sum ev)) ->
-  lstep_wraps repaired s ev = false /\ ginv (c4_add B (ev_sum ev)) (fst (lstep repaired s ev)).
+  lstep_wraps repaired false s ev = false /\ ginv (c4_add B (ev_sum ev)) (fst (lstep repaired false s ev)).
 Proof.
   intros [Ic Id] LW.
   assert (MB : c4_le B (c4_add B (ev_sum ev))) by c4crush.
@@ -530,10 +558,10 @@ Proof.
     by (intros e He; eapply sinv_mono; [apply Ic; exact He|exact MB]).
   assert (Id' : forall d, db s = Some d -> sinv (c4_add B (ev_sum ev)) d)
     by (intros d Hd; eapply sinv_mono; [apply Id; exact Hd|exact MB]).
-  assert (F : forall i, sinv (c4_add B (ev_sum ev)) (fresh i))
-    by (intros i; unfold sinv, fresh; cbn [base prior last]; split; [reflexivity|split; c4crush]).
+  assert (F : forall i h, sinv (c4_add B (ev_sum ev)) (fresh i h))
+    by (intros i h; unfold sinv, fresh; cbn [base prior last]; split; [reflexivity|split; c4crush]).
   destruct s as [ib ca d]. cbn [cache db] in *.
-  destruct ev as [i|i|sn|sn ok| |past]; cbn [lstep lstep_wraps cache db inb ev_sum] in *.
+  destruct ev as [i h|i h|sn|sn ok| |past]; cbn [lstep lstep_wraps cache db inb ev_sum] in *.
   - split; [destruct ca; reflexivity|].
     destruct ib; [split; cbn; auto|].
     destruct ca as [e|]; cbn [fix_active repaired fst]; split; cbn [cache db]; intros x Hx; inversion Hx; subst; auto.
@@ -542,14 +570,14 @@ Proof.
     destruct ca as [e|]; cbn [fst]; split; cbn [cache db]; intros x Hx; try (inversion Hx; subst); auto.
     specialize (Ic' e eq_refl). unfold sinv, confirm in *; cbn. exact Ic'.
   - destruct ca as [e|].
-    + destruct (report_bound B (snap_sum sn) e sn (Ic e eq_refl) (c4_le_refl _) LW) as (R1 & _).
+    + destruct (report_bound B (snap_sum (ifs sn)) false e sn (Ic e eq_refl) (c4_le_refl _) LW) as (R1 & _).
       split; [exact R1|]. cbn. split; intros x Hx; discriminate.
     + split; [reflexivity|]. cbn. split; intros x Hx; discriminate.
   - destruct ca as [e|].
-    + destruct (report_bound B (snap_sum sn) e sn (Ic e eq_refl) (c4_le_refl _) LW) as (R1 & R2 & R3 & R4).
+    + destruct (report_bound B (snap_sum (ifs sn)) true e sn (Ic e eq_refl) (c4_le_refl _) LW) as (R1 & R2 & R3 & R4).
       destruct ib; cbn [andb].
       * split; [exact R1|].
-        destruct (report repaired e sn) as [e' c] eqn:RP. cbn [fst snd] in *.
+        destruct (report repaired false true e sn) as [e' c] eqn:RP. cbn [fst snd] in *.
         destruct ok; cbn [fst]; split; cbn [cache db]; intros x Hx; try (inversion Hx; subst); auto;
           destruct R2 as (Q1 & Q2 & Q3); unfold sinv; cbn [base prior last]; (split; [|split]); auto.
       * split; [reflexivity|]. cbn. split; auto.
@@ -563,7 +591,7 @@ Proof.
 Qed.
 
 Lemma run_bound evs : forall s B,
-  ginv B s -> c4_lt_W (c4_add B (total_readings evs)) -> lrun_wraps repaired s evs = false.
+  ginv B s -> c4_lt_W (c4_add B (total_readings evs)) -> lrun_wraps repaired false s evs = false.
 Proof.
   induction evs as [|ev r IH]; intros s B I LW; cbn [lrun_wraps total_readings] in *; [reflexivity|].
   assert (LW1 : c4_lt_W (c4_add B (ev_sum ev))) by c4crush.
@@ -572,7 +600,7 @@ Proof.
 Qed.
 
 Lemma no_wrap_if_total_small evs :
-  c4_lt_W (total_readings evs) -> lrun_wraps repaired sst0 evs = false.
+  c4_lt_W (total_readings evs) -> lrun_wraps repaired false sst0 evs = false.
 Proof.
   intros H. apply (run_bound evs sst0 c4z).
   - split; intros x Hx; discriminate.
@@ -581,5 +609,5 @@ Qed.
 
 Lemma monotone_total evs :
   c4_lt_W (total_readings evs) -> no_prune evs = true ->
-  nondecreasing c4z (outputs (snd (lrun repaired sst0 evs))) = true.
+  nondecreasing c4z (outputs (snd (lrun repaired false sst0 evs))) = true.
 Proof. intros H NP. apply monotone; [apply no_wrap_if_total_small; exact H|exact NP]. Qed.
